@@ -65,7 +65,7 @@ func pickGrammar0(r *rand.Rand, idx int, usable bool, cfg gen.RandCfg) *spec.Gra
 		json.Unmarshal(b, &g)
 		return &g
 	}
-	if usable && idx%400 == 57 {
+	if usable && idx%397 == 57 { // a prime modulus: the heavy cases spread over all worker processes
 		// close to, but below, the built-in limit of 2000 parser states (1500-1990 states)
 		for n := 800 + r.Intn(150); ; n -= 40 {
 			g := gen.HugeN(r, n)
